@@ -254,6 +254,8 @@ def rule_c05_call_layer(ctx):
         ctx.incomplete(R, "interp", str(e))
         return
     n_none = n_complete = 0
+    unparsed = set()
+    stored = set()
     for o in outs:
         if o.kind == "panic":
             info = o.info
@@ -263,6 +265,15 @@ def rule_c05_call_layer(ctx):
         if o.kind != "return":
             continue
         st = o.state
+        # every answer is based on a complete parse of exactly the offered input with the full field limit
+        full = [k for k in st.facts if k[0] == "discr" and len(k) == 2 and k[1][0] == "app" and k[1][1] == "httparse-verdict" and
+                k[1][2] == "response" and k[1][3] == ("term", ("in", "input")) and k[1][4] == (str(limit),)]
+        if not full:
+            unparsed.add(shape(o.ret)[:40])
+        if shape(o.ret) == "Ok(None)":
+            extra = [k for k in st.mem.get(CALL, {}) if k != ()]
+            if extra:
+                stored.add(repr(extra[0])[:120])
         cls = _classes(st)
         rs = shape(o.ret)
         if cls == "partial":
@@ -285,6 +296,11 @@ def rule_c05_call_layer(ctx):
                 n[1][2][-3:] == (("f", "0"), ("v", "Complete"), ("f", "0"))
             if not ok:
                 ctx.violation("R05.2", "consumed-origin", "consumed count of a complete head is not the tokeniser's Complete(n): %r" % (n,), loc=body_loc(tr))
+    ctx.check(not unparsed, R, "always-parsed", "every answer of the call layer is preceded by a complete parse of exactly the offered input "
+              "(no pre-filter or remembered scan position decides need-more)", loc=body_loc(tr),
+              detail=["returns %s without the full parse" % u for u in sorted(unparsed)][:4])
+    ctx.check(not stored, R, "need-more-stateless", "a need-more answer stores nothing in the call (the same bytes plus more are parsed afresh)",
+              loc=body_loc(tr), detail=sorted(stored)[:3])
     ctx.check(n_none >= 1 and n_complete >= 1, R, "need-more-paths", "incomplete-head and complete-head paths of the call layer were analysed (%d / %d paths)" % (
         n_none, n_complete), loc=body_loc(tr))
     if not any(i.rule == "R05.2" and i.status == "violation" for i in ctx.instances):
